@@ -31,6 +31,11 @@ def run(tier, seed):
     guarded(chk, 'proved part estimator_init', verify_contracts, eng3, [c for c in estimator_init.contracts if c.setup], chk)
     from vlib import smt
     smt.close_pool()
+    # the patch values are calls of the Slobodeckij routines: their contracts (C14: exactness on [0,1], scaling identity for all
+    # (a, h), curve-aware == flat) are part of what C09 relies on; a change inside them is only visible to their own obligations
+    from checks import c14
+    chk.assume("callee contracts of src.norms:Slobodeckij (C14's proved clauses) are re-discharged in this check")
+    guarded(chk, 'proved part seminorm routines (contracts of C14)', c14.add_obligations, chk, tier, seed)
     try:
         from bounded import estimator_rel
         guarded(chk, 'bounded part estimator_rel.run_c09', estimator_rel.run_c09, chk, tier, seed)
